@@ -117,14 +117,45 @@ class LineSeam:
         self.at = None
         self.kind = None
         self.where = None
+        self._guards = {}
+
+    def _guarded_lines(self, filename):
+        """lines of `filename` that sit in the body of a try statement with a bare `except:` / `except BaseException:` handler: an
+        exception raised there is not delivered to the caller as raised (the handler replaces it), so such lines are no crash points"""
+        g = self._guards.get(filename)
+        if g is None:
+            import ast
+            g = set()
+            try:
+                tree = ast.parse(open(filename).read())
+                for node in ast.walk(tree):
+                    if isinstance(node, ast.Try) and any(h.type is None or (isinstance(h.type, ast.Name) and h.type.id == "BaseException") for h in node.handlers):
+                        for stmt in node.body:
+                            g.update(range(stmt.lineno, (stmt.end_lineno or stmt.lineno) + 1))
+            except Exception:
+                pass
+            self._guards[filename] = g
+        return g
 
     def _global(self, frame, event, arg):
         if frame.f_code.co_filename.startswith(self.prefix):
+            if frame.f_code.co_name in ("__enter__", "__exit__"):
+                # the context-manager protocol methods are the recovery path itself: no Python code can promise anything about an
+                # interrupt that lands between "mode saved" and "mode set" inside them, so they are not crash points
+                return None
+            # not below a frame that is currently executing a guarded line
+            f = frame.f_back
+            while f is not None and f.f_code.co_filename.startswith(self.prefix):
+                if f.f_lineno in self._guarded_lines(f.f_code.co_filename):
+                    return None
+                f = f.f_back
             return self._local
         return None
 
     def _local(self, frame, event, arg):
         if event == "line" and self.at is not None:
+            if frame.f_lineno in self._guarded_lines(frame.f_code.co_filename):
+                return self._local
             self.count += 1
             if self.count >= self.at:
                 kind, self.at = self.kind, None
